@@ -79,6 +79,7 @@ func (e *executionResult[R]) Cancel() {
 		Error: ErrExecutionCanceled,
 		Done:  true,
 	})
+	verifPoint("asyncCancel.mid", e)
 	if e.cancelFunc != nil {
 		e.cancelFunc()
 	}
